@@ -329,6 +329,9 @@ func record(prefix string, req *reqgen.Request, c *reqgen.Config, v *reqgen.Verd
 	if extra != "" {
 		hx.Class(extra)
 	}
+	if c.ExtMode == reqgen.ExtNegotiate && len(v.ExtLines) >= 2 {
+		hx.Class(prefix + c.Kind.String() + "/ext-lines/" + strings.Join(v.ExtLines, ","))
+	}
 	nontrivial := (v.Kind == reqgen.MustSucceed && nonCanonicalGood(req)) || (v.Kind == reqgen.MustFail && len(v.Wrong) == 1)
 	if !nontrivial {
 		return
@@ -586,6 +589,125 @@ func TestRequestLineGrid(t *testing.T) {
 		}
 	}
 	hx.Part("method x version token (tables + every printable byte in the minor/major/suffix position) x target x line end x {ws.Upgrade, ws.UpgradeHTTP}", int64(n), true)
+}
+
+// TestExtensionLineGrid: one, two and three Sec-WebSocket-Extensions header
+// lines, each line triggering one negotiator behaviour (or being malformed),
+// for both upgraders: an objection in any line must fail the handshake with
+// that objection's status (500 for a plain error or a rejection without
+// status), whatever the later lines do.
+func TestExtensionLineGrid(t *testing.T) {
+	policies := map[string]reqgen.ExtPolicy{
+		"ext-acc":  {Act: reqgen.ExtAcceptAll},
+		"ext-bare": {Act: reqgen.ExtAcceptBare},
+		"ext-dec":  {Act: reqgen.ExtDecline},
+		"ext-err":  {Act: reqgen.ExtPlainError, Reason: "negotiation failed"},
+		"ext-rej":  {Act: reqgen.ExtReject, Status: 403, Reason: "extension forbidden", Headers: []reqgen.HeaderKV{{Name: "X-Reject-Why", Value: "a"}}},
+		"ext-rej0": {Act: reqgen.ExtReject, Status: 0, Reason: "rejected without a status", Headers: []reqgen.HeaderKV{{Name: "X-Reject-Why", Value: "b c"}, {Name: "X-Rej-B", Value: "120"}}},
+		"ext-rej1": {Act: reqgen.ExtReject, Status: 0},
+	}
+	values := []string{"ext-acc; p=1", "ext-bare; q", "ext-dec", "ext-unknown; p", "ext-err", "ext-rej; p=1", "ext-rej0", "ext-rej1",
+		"ext-acc, ext-err", "ext-rej, ext-acc", "ext-acc; =1", "ext-acc; p=\"1\"", ""}
+	n := 0
+	var walk func(kind reqgen.Kind, mode reqgen.ExtMode, lines []string, depth int) bool
+	walk = func(kind reqgen.Kind, mode reqgen.ExtMode, lines []string, depth int) bool {
+		if len(lines) > 0 {
+			n++
+			if hx.Mine(n) {
+				req := reqgen.Valid("/chat", "example.com", gridKey)
+				for _, l := range lines {
+					req.Add(reqgen.NameExtensions, l)
+				}
+				cfg := &reqgen.Config{Kind: kind, ExtMode: mode, Ext: policies, HeaderForm: reqgen.HeaderHTTP, Header: []reqgen.HeaderKV{{Name: "X-Srv-A", Value: "a"}}}
+				v := reqgen.Classify(req, cfg)
+				var o outcome
+				var built *reqgen.Built
+				ok := true
+				if kind == reqgen.Raw {
+					var u ws.Upgrader
+					u, built = cfg.Upgrader()
+					o = runRaw(u, req.Render(), transport{})
+				} else {
+					var u ws.HTTPUpgrader
+					u, built = cfg.HTTPUpgrader()
+					o, ok = runHTTP(u, req.Render(), 0)
+				}
+				hx.Eval()
+				if ok {
+					record("grid:", req, cfg, &v, "")
+					if msg := judge(cfg, &v, built, o); msg != "" {
+						hx.Failf(t, describe(req, cfg, &v), "%s\nerr: %v\nwritten: %q", msg, o.err, o.out)
+						return false
+					}
+				}
+			}
+		}
+		if depth == 0 {
+			return true
+		}
+		for _, val := range values {
+			if depth == 1 && len(lines) == 2 && len(val) > 8 && val != "ext-acc; =1" {
+				continue // third line: the short alphabet is enough
+			}
+			if !walk(kind, mode, append(append([]string(nil), lines...), val), depth-1) {
+				return false
+			}
+		}
+		return true
+	}
+	for _, kind := range []reqgen.Kind{reqgen.Raw, reqgen.HTTP} {
+		for _, mode := range []reqgen.ExtMode{reqgen.ExtNegotiate, reqgen.ExtSelector, reqgen.ExtNone} {
+			if !walk(kind, mode, nil, 3) {
+				return
+			}
+		}
+	}
+	hx.Part("1-3 Sec-WebSocket-Extensions lines x {accept, accept bare, decline, unknown, plain error, reject(403), reject(no status) with/without headers, lists, malformed} x {Negotiate, Extension, none} x {ws.Upgrader, ws.HTTPUpgrader}", int64(n), true)
+}
+
+// TestRejectionWithoutStatus: every callback rejecting with
+// ws.RejectConnectionError that carries no ws.RejectionStatus (reason and/or
+// headers only): the answer must be a well-formed 500 with the reason as body
+// and the rejection headers.
+func TestRejectionWithoutStatus(t *testing.T) {
+	n := 0
+	hdrs := [][]reqgen.HeaderKV{nil, {{Name: "X-Reject-Why", Value: "a"}}, {{Name: "X-Reject-Why", Value: "a"}, {Name: "Retry-After", Value: "120"}}}
+	for _, reason := range []string{"", "no", "a longer reason text for the body"} {
+		for _, h := range hdrs {
+			for _, st := range []int{0, 401, 503} {
+				for cb := 0; cb < 4; cb++ {
+					out := reqgen.Outcome{Kind: reqgen.CbReject, Status: st, Reason: reason, Headers: h}
+					cfg := &reqgen.Config{Kind: reqgen.Raw, HeaderForm: reqgen.HeaderString, Header: []reqgen.HeaderKV{{Name: "X-Srv-A", Value: "a"}}}
+					switch cb {
+					case 0:
+						cfg.OnRequest = out
+					case 1:
+						cfg.OnHost = out
+					case 2:
+						cfg.OnHeader = out
+					case 3:
+						cfg.OnBeforeUpgrade = out
+					}
+					req := reqgen.Valid("/chat", "example.com", gridKey).Add("Origin", "http://example.com")
+					v := reqgen.Classify(req, cfg)
+					u, built := cfg.Upgrader()
+					o := runRaw(u, req.Render(), transport{})
+					n++
+					hx.Eval()
+					record("grid:", req, cfg, &v, "")
+					if v.Kind != reqgen.MustFail {
+						hx.Failf(t, describe(req, cfg, &v), "model does not call a rejecting callback must-fail: %s", v)
+						return
+					}
+					if msg := judge(cfg, &v, built, o); msg != "" {
+						hx.Failf(t, describe(req, cfg, &v), "%s\nerr: %v\nwritten: %q", msg, o.err, o.out)
+						return
+					}
+				}
+			}
+		}
+	}
+	hx.Part("callback x rejection {no status, 401, 503} x reason x rejection headers (ws.Upgrader)", int64(n), true)
 }
 
 // TestModelTables pins the model's reading of the spelling tables, so that a
